@@ -2,6 +2,7 @@
   C03 — delivered messages carry the sender's authenticated ident and an allowed channel.
 -/
 import Hpfeeds.Lemmas.BrokerStep
+import Hpfeeds.Lemmas.BrokerDyn
 namespace Hpfeeds.C03
 open Hpfeeds Hpfeeds.Broker Extracted
 
@@ -39,6 +40,26 @@ theorem reject_publish (cfg : Cfg) (s : State) (c : Nat) (x : Conn) (f : Frame) 
     (messageReceived cfg s c f).2 = .cont ∧ Rejected s (messageReceived cfg s c f).1 c := by
   rw [Broker.reject_publish cfg s c x f ident ch p hx hauth hf hbad]
   exact ⟨rfl, errorClose_rejected s c⟩
+
+/-! the same for a credential store that changes while the broker runs (`runS`: rotation, revocation, edited
+    channel lists): the publish ACL is the one of the row the connection authenticated with -/
+theorem Dyn.accepted_sound (cfg : Cfg) (es : List (Store × Event)) (a : Accepted) (ha : a ∈ (runS cfg es).accepted) :
+    a.srcAk = some a.ident ∧ a.chan ∈ a.srcPubchans :=
+  ⟨((deliv_runS cfg es).acc a ha).ident, ((deliv_runS cfg es).acc a ha).chan⟩
+
+theorem Dyn.every_delivery_sound (cfg : Cfg) (es : List (Store × Event)) (d : Nat) (y : Conn) (f : Frame)
+    (hy : (runS cfg es).conn d = some y) (hf : f ∈ pubFrames y.out) :
+    ∃ a ∈ (runS cfg es).accepted, f = pubFrame a.ident a.chan a.payload ∧ d ∈ a.recips ∧
+      a.srcAk = some a.ident ∧ a.chan ∈ a.srcPubchans := by
+  rw [(deliv_runS cfg es).log d y hy] at hf
+  unfold delivered at hf
+  rw [List.mem_filterMap] at hf
+  obtain ⟨a, ha, h⟩ := hf
+  by_cases hm : d ∈ a.recips
+  · rw [if_pos hm] at h
+    cases h
+    exact ⟨a, ha, rfl, hm, Dyn.accepted_sound cfg es a ha⟩
+  · rw [if_neg hm] at h; cases h
 
 /-- idents are compared as whole byte strings: a different string is a different ident -/
 example (x : Conn) (h : x.ak = some [65, 108]) : some [97, 108] ≠ x.ak := by rw [h]; decide
